@@ -231,6 +231,73 @@ def _shape_case(ctx, G, ast, text, cat, label):
             return
 
 
+CORPUS = __import__("os").path.join(__import__("os").path.dirname(__import__("os").path.dirname(__import__("os").path.abspath(__file__))),
+                                     "known", "c19_named_forms_corpus.json")
+
+
+def canonical(ast):
+    if ast[0] == "item":
+        return f"< {ast[1]} >"
+    return "< L " + (ast[1] + " " if ast[1] else "") + " ".join(canonical(m) for m in ast[2]) + " >"
+
+
+def behaviour(G, text, ast, cat):
+    """What the library observably does with `text` for three fixed bodies of the documented shape:
+    (signature, as_documented). The signature is what the committed corpus of the known finding records."""
+    import json
+    import random
+
+    from lib.run import jsonable
+
+    sig = []
+    documented = True
+    for k in range(3):
+        rng = random.Random(f"{text}|{k}")
+        tree, expected = build(ast, cat, rng)
+        body = e5ref.encode(tree)
+        try:
+            target = G.generate(text)
+            pos = target.decode(body)
+            got = target.get()
+        except Exception as exc:
+            sig.append(["raises", type(exc).__name__])
+            documented = False
+            continue
+        sig.append(["value", pos == len(body), json.dumps(jsonable(got), sort_keys=False)[:1500]])
+        if pos != len(body) or not sv.same_value(got, expected):
+            documented = False
+    return sig, documented
+
+
+def _known_corpus(ctx, G, cat):
+    """The known finding, pinned to specific definitions: each entry of the committed corpus records how the library read
+    that definition when the finding was recorded. Same behaviour -> KNOWN-FINDING; documented behaviour -> repaired;
+    anything else is a different violation of the property and is reported."""
+    import json
+
+    try:
+        with open(CORPUS) as fh:
+            corpus = json.load(fh)["entries"]
+    except OSError:
+        ctx.unsure("the corpus of the known SFDL finding is missing")
+        return
+    for i, entry in enumerate(corpus):
+        if not ctx.mine(i):
+            continue
+        text = entry["definition"]
+        ast = parse_shipped(text)
+        ctx.count("known_corpus.definitions")
+        ctx.case(("corpus", text), nontrivial=True)
+        sig, documented = behaviour(G, text, ast, cat)
+        wit = {"definition": text, "recorded": entry["behaviour"], "observed": sig}
+        if documented:
+            ctx.count("known_corpus.now_read_as_documented")
+        elif sig == entry["behaviour"]:
+            ctx.violation("sfdl-named-list-outside-supported-forms", wit)
+        else:
+            ctx.violation("sfdl-named-list:known-deviation-replaced-by-a-different-one", wit)
+
+
 def _mutants(ctx, G, ast, rng, names_set):
     text = render(ast, rng, fancy=False)
     # structural '>' positions (no comments in this rendering)
@@ -303,6 +370,7 @@ def run(ctx):
         _mutants(ctx, G, ast, rng, names_set)
         ctx.count("enumerated.shipped_definitions")
     ctx.exhaustive["shipped_definitions"] = True
+    _known_corpus(ctx, G, cat)
     n = 700 if ctx.quick else 250000
     for i in range(n):
         ast = gen_def(rng, names, rng.choice([1, 2, 3, 5]), rng.choice([2, 3, 6]))
